@@ -117,12 +117,14 @@ def run_script(script):
     steps, tags = [], set()
 
     def res_of(ar):
+        # what a caller sees: the result as `get()` reports it (a value stored after an
+        # exception wins there, although `.exception` still shows the old exception)
         if not ar.ready():
             return 'pending'
-        if ar.exception is not None:
-            ex = ar.exception
+        try:
+            v = ar.get(block=False)
+        except BaseException as ex:
             return ['err', ex.code if isinstance(ex, E) else 999999]
-        v = ar.value
         if isinstance(v, list):
             return ['vals', [x if isinstance(x, int) else None for x in v]]
         if isinstance(v, int) and not isinstance(v, bool):
